@@ -2,6 +2,7 @@ CONSTANTS
   MaxOps = 3
   MaxReq = 2
   TwoStep = FALSE
+  Exotic = FALSE
   Hold = FALSE
   Free = TRUE
 SPECIFICATION Spec
